@@ -215,6 +215,10 @@ def minimise(job, target, sim_dir, repo, budget=60, wall_budget=150.0):
                     out.append((f"drop call {cyc[i][1]}{cyc[i][0]}", dict(c, cycle=nc, sizes=sorted(set(n for _, n in nc)))))
             if c.get("ops"):
                 out.append(("ops=0", dict(c, ops=0)))
+            if c.get("warm"):
+                out.append(("warm=0", dict(c, warm=0)))
+            if c.get("gens", 1) > 1:
+                out.append((f"gens={c['gens'] - 1}", dict(c, gens=c["gens"] - 1)))
             if c["yield"]:
                 out.append(("yield=0", dict(c, **{"yield": 0})))
             if c["D"] > 2:
@@ -230,6 +234,10 @@ def minimise(job, target, sim_dir, repo, budget=60, wall_budget=150.0):
             out.append(("battery", dict(c, battery=0)))
         if c.get("ops"):
             out.append(("ops=0", dict(c, ops=0)))
+        if c.get("warm"):
+            out.append(("warm=0", dict(c, warm=0)))
+        if c.get("gens", 1) > 1:
+            out.append((f"gens={c['gens'] - 1}", dict(c, gens=c["gens"] - 1)))
         nthreads = c["K"] + (1 if c["main"] else 0)
         inv = max(1, len(v.get("threads") or [1]))
         for k in sorted({inv, 2, 1}, reverse=False):
@@ -379,7 +387,7 @@ def run_tier(tier, seed, sim_dir=SIM_DIR, repo=REPO, write_evidence=True, jobs=N
 
 def write_evidence_file(tier, seed, jobs, recs, audit, wall, reported, stopped, build_s, repo):
     ok = [r for r in recs if r["status"] == "ok" and "probes" in r]
-    multi = [r for r in ok if r["job"]["K"] + r["job"]["main"] >= 2]
+    multi = [r for r in ok if runner.nthreads(r["job"]) + (1 if r["job"].get("warm") else 0) >= 2]
     nontrivial = set(r["sig"] for r in multi if r["probes"]["preempted_draws"] > 0)
     draws = sum(r["probes"]["draws"] for r in ok)
     pre = sum(r["probes"]["preempted_draws"] for r in multi)
@@ -437,7 +445,10 @@ def write_evidence_file(tier, seed, jobs, recs, audit, wall, reported, stopped, 
             "seeds_per_hour": round(len(ok) / max(wall, 1e-9) * 3600),
             "cpu_seconds_in_simulation": round(sim_wall, 1),
             "fault_kinds_fired": {
-                "entropy_seedings(one per thread that drew)": sum(r["job"]["K"] + r["job"]["main"] for r in ok),
+                "entropy_seedings(one per thread that drew)": sum(runner.nthreads(r["job"]) + (1 if r["job"].get("warm") else 0) for r in ok),
+                "runs_with_main_thread_warm_up_before_workers": sum(1 for r in ok if r["job"].get("warm")),
+                "runs_with_successive_thread_generations": sum(1 for r in ok if r["job"].get("gens", 1) > 1),
+                "threads_started_after_an_earlier_thread_exited": sum(r["job"]["K"] * (r["job"].get("gens", 1) - 1) for r in ok),
                 "preemption_inside_random_call": pre,
                 "cooperative_yield_points": sum((r["job"]["K"] + r["job"]["main"]) * r["job"]["D"] * len(r["job"]["sizes"]) for r in ok if r["job"]["yield"]),
                 "runs_with_main_thread_drawing": sum(1 for r in ok if r["job"]["main"]),
